@@ -17,6 +17,7 @@ import (
 	"bytes"
 	"context"
 	"encoding/json"
+	"errors"
 	"flag"
 	"fmt"
 	"math"
@@ -32,7 +33,9 @@ import (
 	protoMetricsV1 "github.com/lindb/common/proto/gen/v1/linmetrics"
 	"google.golang.org/grpc"
 
+	"github.com/lindb/lindb/constants"
 	"github.com/lindb/lindb/coordinator/broker"
+	"github.com/lindb/lindb/coordinator/discovery"
 	"github.com/lindb/lindb/flow"
 	"github.com/lindb/lindb/kv"
 	"github.com/lindb/lindb/models"
@@ -322,6 +325,89 @@ type qChooser struct {
 func (c *qChooser) Choose(string, int) ([]*models.PhysicalPlan, error) { return c.plans(), nil }
 func (c *qChooser) GetDatabaseCfg(string) (models.Database, bool)      { return c.db, true }
 
+// ------------------------------------------------------------------ the broker's planner
+// qPlanner: a real broker state manager fed with the database config and, per layout, the storage state the master
+// would publish (every leaf a live storage node, every shard online and led by the leaf the layout gives it to).
+// Its Choose (coordinator/broker/state_manager.go: GetQueryableReplicas -> one target per storage node with the shards it
+// leads) is what the root and the compute nodes of a real broker ask; the driver uses ITS targets for the leaves.
+type qPlanner struct {
+	mgr    broker.StateManager
+	cancel context.CancelFunc
+	nsent  int
+}
+
+func newQPlanner(db string, nsh int, opt *option.DatabaseOption) *qPlanner {
+	ctx, cancel := context.WithCancel(context.Background())
+	p := &qPlanner{mgr: broker.NewStateManager(ctx, models.StatelessNode{HostIP: "9.9.9.9", GRPCPort: 9000}, bvConnMgr{}, nil), cancel: cancel}
+	cfg := models.Database{Name: db, NumOfShard: nsh, ReplicaFactor: 1, Option: opt}
+	data, _ := json.Marshal(&cfg)
+	p.mgr.EmitEvent(&discovery.Event{Type: discovery.DatabaseConfigChanged, Key: constants.GetDatabaseConfigPath(db), Value: data})
+	return p
+}
+
+// barrier: a sentinel broker node is registered and removed; when it is gone every earlier event has been handled
+func (p *qPlanner) barrier() bool {
+	p.nsent++
+	name := fmt.Sprintf("sentinel-%d", p.nsent)
+	node := models.StatelessNode{HostIP: "7.7.7.7", GRPCPort: uint16(10000 + p.nsent%20000)}
+	data, _ := json.Marshal(&node)
+	seen := func() bool {
+		for _, n := range p.mgr.GetLiveNodes() {
+			if n.HostIP == "7.7.7.7" {
+				return true
+			}
+		}
+		return false
+	}
+	p.mgr.EmitEvent(&discovery.Event{Type: discovery.NodeStartup, Key: constants.GetLiveNodePath(name), Value: data})
+	deadline := time.Now().Add(10 * time.Second)
+	for !seen() {
+		if time.Now().After(deadline) {
+			return false
+		}
+		time.Sleep(100 * time.Microsecond)
+	}
+	p.mgr.EmitEvent(&discovery.Event{Type: discovery.NodeFailure, Key: constants.GetLiveNodePath(name)})
+	for seen() {
+		if time.Now().After(deadline) {
+			return false
+		}
+		time.Sleep(100 * time.Microsecond)
+	}
+	return true
+}
+
+// plan: the storage state of the layout goes in, the leaf targets of Choose come out
+func (p *qPlanner) plan(db string, nodes []*models.StatefulNode, shards [][]models.ShardID) ([]*models.Target, error) {
+	st := models.NewStorageState()
+	m := map[models.ShardID]models.ShardState{}
+	// every leaf is a replica of every shard (replica factor = number of leaves), the layout names the leader
+	var all []models.NodeID
+	for _, n := range nodes {
+		all = append(all, n.ID)
+	}
+	for i, n := range nodes {
+		st.LiveNodes[n.ID] = *n
+		for _, sid := range shards[i] {
+			m[sid] = models.ShardState{ID: sid, State: models.OnlineShard, Leader: n.ID, Replica: models.Replica{Replicas: all}}
+		}
+	}
+	st.ShardStates[db] = m
+	data, _ := json.Marshal(st)
+	p.mgr.EmitEvent(&discovery.Event{Type: discovery.StorageStateChanged, Key: constants.StorageStatePath, Value: data})
+	if !p.barrier() {
+		return nil, errors.New("the broker state manager did not handle the storage state within 10s")
+	}
+	plans, err := p.mgr.Choose(db, 1)
+	if err != nil {
+		return nil, err
+	}
+	if len(plans) != 1 {
+		return nil, fmt.Errorf("Choose returned %d plans", len(plans))
+	}
+	return plans[0].Targets, nil
+}
+
 // ------------------------------------------------------------------ layouts
 
 // qLayout: how the shards of the database are spread over leaves, how many compute nodes, delivery schedule
@@ -371,6 +457,8 @@ type qHist struct {
 	hangMs int
 	// a second storage node whose database never saw the metric (its leaf answers "not found")
 	ghost tsdb.Engine
+	// the REAL broker state manager (coordinator/broker): plans the leaves of every layout (Choose)
+	planner *qPlanner
 }
 
 // ghostEngine opens (once) an engine with the same database and one shard in which nothing was ever written
@@ -702,6 +790,9 @@ func (h *qHist) run(q *qQuery, lay *qLayout) (res trace.F, info string) {
 	}
 	var leaves []*qNode
 	var leafTargets []*models.Target
+	var leafNodes []*models.StatefulNode
+	var leafShards [][]models.ShardID
+	anyShard := false
 	for i, sids := range lay.leaves {
 		ln := &models.StatefulNode{StatelessNode: models.StatelessNode{HostIP: fmt.Sprintf("2.2.2.%d", i+1), GRPCPort: 2891}, ID: models.NodeID(i + 1)}
 		fct := rpc.NewTaskServerFactory()
@@ -725,6 +816,91 @@ func (h *qHist) run(q *qQuery, lay *qLayout) (res trace.F, info string) {
 		c.nodes[n.indicator] = n
 		leaves = append(leaves, n)
 		leafTargets = append(leafTargets, &models.Target{Indicator: ln.Indicator(), ShardIDs: ids})
+		leafNodes, leafShards = append(leafNodes, ln), append(leafShards, ids)
+		if len(ids) > 0 {
+			anyShard = true
+		}
+	}
+	if !lay.ghost && len(leafNodes) > 0 {
+		// the leaves that hold shards are planned by the real broker state manager; what it answers is an event (the
+		// specification wants every shard of the layout exactly once, at the leaf that leads it) and is what the
+		// root / the compute nodes get; leaves without shards (never a target of a real plan) stay the driver's
+		if h.planner == nil {
+			h.planner = newQPlanner(h.dbName, h.nsh, h.opt)
+		}
+		planned, perr := h.planner.plan(h.dbName, leafNodes, leafShards)
+		if perr != nil && !(errors.Is(perr, constants.ErrShardNotFound) && !anyShard) {
+			return trace.F{"ok": false, "err": "harness", "lost": 0}, "planner: " + perr.Error()
+		}
+		idxOf := map[string]int{}
+		for i, n := range leafNodes {
+			idxOf[n.Indicator()] = i + 1
+		}
+		tj := [][]any{}
+		for _, t := range planned {
+			ids := []int{}
+			for _, sid := range t.ShardIDs {
+				ids = append(ids, int(sid))
+			}
+			tj = append(tj, []any{idxOf[t.Indicator], ids})
+		}
+		lj := [][]int{}
+		for _, ids := range leafShards {
+			l := []int{}
+			for _, sid := range ids {
+				l = append(l, int(sid))
+			}
+			lj = append(lj, l)
+		}
+		h.rec.Emit("Plan", trace.F{"leaves": lj, "targets": tj})
+		h.kinds["Plan"]++
+		// a plan that is not the layout's (the specification rejects the Plan event) is not executed: the query runs on
+		// the layout's own targets, so that a foreign plan cannot stall the driver
+		same := len(planned) > 0 || !anyShard
+		seen := map[int]bool{}
+		for _, t := range planned {
+			i := idxOf[t.Indicator]
+			if i == 0 || seen[i] || len(t.ShardIDs) != len(leafShards[i-1]) {
+				same = false
+				break
+			}
+			seen[i] = true
+			want := map[models.ShardID]bool{}
+			for _, sid := range leafShards[i-1] {
+				want[sid] = true
+			}
+			for _, sid := range t.ShardIDs {
+				if !want[sid] {
+					same = false
+				}
+				delete(want, sid)
+			}
+		}
+		for i, ids := range leafShards {
+			if len(ids) > 0 && !seen[i+1] {
+				same = false
+			}
+		}
+		if !same {
+			h.kinds["Plan-foreign"]++
+			planned = nil
+			for i, x := range leafTargets {
+				if len(leafShards[i]) > 0 {
+					planned = append(planned, x)
+				}
+			}
+		}
+		var merged []*models.Target
+		for _, t := range planned {
+			cp := *t
+			merged = append(merged, &cp)
+		}
+		for i, x := range leafTargets {
+			if len(leafShards[i]) == 0 {
+				merged = append(merged, x)
+			}
+		}
+		leafTargets = merged
 	}
 	leafPlan := func() []*models.PhysicalPlan {
 		var ts []*models.Target
